@@ -26,6 +26,7 @@ META = {
     'assumptions': ['reference model: dict (period, currency) -> last written rate'],
 }
 META['bounds'].append('two histories per validity kind with look-ups of 3 pairs between the updates')
+META['bounds'].append('history pools also hold an update whose second rate specification is rejected (base currency as term, zero rate, unknown code)')
 
 # pool entries: (validity, [(currency, amount, multiple), ...]); every amount is unique
 D = datetime.date
